@@ -42,6 +42,25 @@ pub use siphasher::sip::SipHasher13 as DefaultHasher;
 /// while we try to get a deterministic constructor into the standard library.
 const DETERMINISTIC_RANDOM_STATE: RandomState = unsafe { std::mem::transmute((0u64, 0u64)) };
 
+/// [`DETERMINISTIC_RANDOM_STATE`] as a `Default`-constructible `BuildHasher`: generic code (serde's
+/// `Deserialize` for the std collections) builds its result with `S::default()`, which for
+/// `RandomState` is a fresh random state.
+#[derive(Clone)]
+struct FixedState(RandomState);
+
+impl Default for FixedState {
+    fn default() -> Self {
+        FixedState(DETERMINISTIC_RANDOM_STATE)
+    }
+}
+
+impl std::hash::BuildHasher for FixedState {
+    type Hasher = <RandomState as std::hash::BuildHasher>::Hasher;
+    fn build_hasher(&self) -> Self::Hasher {
+        self.0.build_hasher()
+    }
+}
+
 // Note that previously we did not use `RandomState` but `SipHasher13` (which `RandomState`
 // uses under the hood) with fixed keys. This is fine within a code base that uses our
 // hash collections, but unfortunately we need to deal with code that uses libraries that
@@ -54,7 +73,14 @@ const DETERMINISTIC_RANDOM_STATE: RandomState = unsafe { std::mem::transmute((0u
 #[derive(Clone, Debug, Serialize, Deserialize)]
 #[serde(bound(serialize = "K: Eq + Serialize, V: Serialize"))]
 #[serde(bound(deserialize = "K: Eq + Hash + Deserialize<'de>, V: Deserialize<'de>"))]
+#[serde(from = "StdHashMap<K, V, FixedState>")]
 pub struct HashMap<K, V>(StdHashMap<K, V, RandomState>);
+
+impl<K: Eq + Hash, V> From<StdHashMap<K, V, FixedState>> for HashMap<K, V> {
+    fn from(value: StdHashMap<K, V, FixedState>) -> Self {
+        HashMap::from_iter(value)
+    }
+}
 
 impl<K, V> HashMap<K, V> {
     pub fn new() -> Self {
@@ -181,7 +207,14 @@ impl<K: UnwindSafe, V: UnwindSafe> UnwindSafe for HashMap<K, V> {}
 #[derive(Clone, Debug, Serialize, Deserialize)]
 #[serde(bound(serialize = "T: Eq + Serialize"))]
 #[serde(bound(deserialize = "T: Eq + Hash + Deserialize<'de>"))]
+#[serde(from = "StdHashSet<T, FixedState>")]
 pub struct HashSet<T>(StdHashSet<T, RandomState>);
+
+impl<T: Eq + Hash> From<StdHashSet<T, FixedState>> for HashSet<T> {
+    fn from(value: StdHashSet<T, FixedState>) -> Self {
+        HashSet::from_iter(value)
+    }
+}
 
 impl<T> HashSet<T> {
     pub fn new() -> Self {
@@ -233,21 +266,21 @@ impl<T> Default for HashSet<T> {
 impl<T: Eq + Hash + Clone> BitAnd<&HashSet<T>> for &HashSet<T> {
     type Output = HashSet<T>;
     fn bitand(self, rhs: &HashSet<T>) -> HashSet<T> {
-        HashSet(self.0.bitand(&rhs.0))
+        self.0.intersection(&rhs.0).cloned().collect()
     }
 }
 
 impl<T: Eq + Hash + Clone> BitOr<&HashSet<T>> for &HashSet<T> {
     type Output = HashSet<T>;
     fn bitor(self, rhs: &HashSet<T>) -> HashSet<T> {
-        HashSet(self.0.bitor(&rhs.0))
+        self.0.union(&rhs.0).cloned().collect()
     }
 }
 
 impl<T: Eq + Hash + Clone> BitXor<&HashSet<T>> for &HashSet<T> {
     type Output = HashSet<T>;
     fn bitxor(self, rhs: &HashSet<T>) -> HashSet<T> {
-        HashSet(self.0.bitxor(&rhs.0))
+        self.0.symmetric_difference(&rhs.0).cloned().collect()
     }
 }
 
@@ -304,7 +337,7 @@ impl<T: Eq + Hash> PartialEq for HashSet<T> {
 impl<T: Eq + Hash + Clone> Sub<&HashSet<T>> for &HashSet<T> {
     type Output = HashSet<T>;
     fn sub(self, rhs: &HashSet<T>) -> HashSet<T> {
-        HashSet(self.0.sub(&rhs.0))
+        self.0.difference(&rhs.0).cloned().collect()
     }
 }
 
